@@ -76,7 +76,7 @@ def onceCall (expTime now : Int) (c : Cell) (fresh : Int) : Cell × Bool × Int 
   match cellGet now c with                                -- memo, _ := c.Get("func")
   | none =>
     (cellSet expTime now c fresh, true, fresh)            -- val := fn(); c.Set(...); return val
-  | some v => (c, false, v)                               -- memo, _ = c.Get("func"); memo.Val()
+  | some v => (c, false, v)                               -- return memo.Val()   (ONE lookup per call: /repo dc4805d)
 
 /-! ## Retry -/
 
